@@ -473,7 +473,9 @@ func (c *Context) rootSpecials(d, x *Decimal, factor int32) (bool, Condition, er
 	case 0:
 		d.Set(x)
 		d.Exponent /= factor
-		return true, 0, nil
+		// Fit the zero's exponent to the context's range.
+		res, err := c.goError(c.round(d, d))
+		return true, res, err
 	}
 	return false, 0, nil
 }
